@@ -621,24 +621,22 @@ fn programs(thorough: bool) -> Vec<(Program, usize)> {
         add(&mut v, &format!("{k}:2:f:S@0,G@1"), b1);
     }
     if thorough {
-        // ---- deep family: every schedule with <= 3 preemptions ----
+        // Budget: ~150 executions/s in total in this sandbox, so ~150k executions for ~17 minutes.
+        // ---- deep family: every schedule with <= 3 preemptions, the two smallest programs ----
         for k in ["rc", "rl"] {
-            for p in ["1:f:SGG@0,G@0", "1:f:SG@0,GG@0", "1:f:SG@0,SG@0", "1+1:f:SG@0,GG@1", "1+1:f:SG@0,SG@1", "1+1:l:SG@0,G@1", "1+1+1:f:SG@0,G@2"] {
+            for p in ["1+1:l:S@0,G@1", "2:f:S@0,G@1"] {
                 add(&mut v, &format!("{k}:{p}"), 3);
             }
-            // a writer's two values, a slow initialiser and a reader that reads twice
-            add(&mut v, &format!("{k}:1:f:SS@0,G@0,GG@0"), 3);
-            // three threads: a writer racing two initialising readers of one region
-            add(&mut v, &format!("{k}:1:f:S@0,G@0,G@0"), 3);
-            add(&mut v, &format!("{k}:2+1:f:S@1,GG@2"), 2);
-            add(&mut v, &format!("{k}:1+1:f:S@0,S@1,GG@1"), 2);
+            // three threads (a writer racing two initialising readers; the order-regression
+            // shape): deviation... these stay at bound 2
+            add(&mut v, &format!("{k}:1:f:S@0,G@0,G@0"), 2);
+            add(&mut v, &format!("{k}:1:f:SS@0,G@0,GG@0"), 2);
         }
-    }
-    if thorough {
-        // ---- systematic family: every unordered pair of op sequences of 1..=3 operations ----
+        // ---- systematic family: every unordered pair of op sequences of 1..=2 operations, on
+        //      one region and on two regions, every schedule with <= 1 preemption ----
         let seqs: Vec<String> = {
             let mut out = Vec::new();
-            for len in 1..=3_usize {
+            for len in 1..=2_usize {
                 for bits in 0..(1_u32 << len) {
                     out.push((0..len).map(|i| if bits >> i & 1 == 1 { 'S' } else { 'G' }).collect::<String>());
                 }
@@ -652,19 +650,14 @@ fn programs(thorough: bool) -> Vec<(Program, usize)> {
                         if !a.contains('S') && !b.contains('S') && a.len() + b.len() > 2 {
                             continue; // read-only programs: one representative is enough
                         }
-                        add(&mut v, &format!("{k}:{regions}:f:{a}@{pa},{b}@{pb}"), 2);
+                        add(&mut v, &format!("{k}:{regions}:f:{a}@{pa},{b}@{pb}"), 1);
                     }
                 }
             }
-            for (a, b) in [("SG", "G"), ("SG", "GG"), ("SGG", "G"), ("SG", "SG")] {
-                for (regions, pa, pb) in [("1", 0, 0), ("2", 0, 1), ("1+1", 0, 1), ("1+1+1", 0, 2), ("2+1", 1, 2)] {
-                    add(&mut v, &format!("{k}:{regions}:l:{a}@{pa},{b}@{pb}"), 2);
-                    add(&mut v, &format!("{k}:{regions}:f:{a}@{pa},{b}@{pb}"), 2);
-                }
-            }
-            for (a, b, c) in [("SS", "G", "GG"), ("S", "G", "G"), ("SG", "G", "G"), ("S", "S", "GG"), ("SG", "SG", "G"), ("SS", "GG", "GG")] {
-                for (regions, pa, pb, pc) in [("1", 0, 0, 0), ("1+1", 0, 1, 1), ("1+1", 0, 0, 1), ("1+1+1", 0, 1, 2), ("1+2", 0, 1, 2)] {
-                    add(&mut v, &format!("{k}:{regions}:f:{a}@{pa},{b}@{pb},{c}@{pc}"), 2);
+            for (a, b) in [("SG", "G"), ("SG", "SG")] {
+                for (regions, pa, pb) in [("2", 0, 1), ("1+1+1", 0, 2), ("2+1", 1, 2)] {
+                    add(&mut v, &format!("{k}:{regions}:l:{a}@{pa},{b}@{pb}"), 1);
+                    add(&mut v, &format!("{k}:{regions}:f:{a}@{pa},{b}@{pb}"), 1);
                 }
             }
         }
